@@ -115,7 +115,8 @@ class Prop(SeqProp):
             "terminator, with the trailing \\r a saved record file leaves, and bare); runs of consecutive saves across three "
             "classes sharing the class-level buffer; typed records (int, float incl. 1e-300/-0.0/inf, str); JSON records "
             "(strings incl. raw line breaks, big ints, finite floats, bools, None, nested lists/dicts); record files edited, saved "
-            "and reopened in both flavours; non-trivial = a row with a special character or a typed/json/file round trip")
+            "and reopened in both flavours; record classes derived from concrete record classes (fresh classes per case, both "
+            "orders of first use); non-trivial = a row with a special character or a typed/json/file round trip")
     trusted_base = ["Lean 4.33.0 kernel", "axioms: propext, Classical.choice, Quot.sound (audited per theorem)",
                     "hand-written model Model/Records.lean (csv QUOTE_MINIMAL writer, csv reader state machine, StringIO) tied to "
                     "files.py and to the csv module by this correspondence run",
